@@ -2,7 +2,7 @@
    out: every program the compiler accepts and that is [plain] (no element
    store; plus two shapes the parser never produces) lies in lfrag. *)
 From Coq Require Import ZArith NArith List Bool Lia.
-From EvyV Require Import Base Bytecode SymTab Vm Compile CompileSem CompileProofs CompileStmtProofs CompileLocProofs.
+From EvyV Require Import Base Bytecode BytecodeProofs SymTab Vm Compile CompileSem CompileProofs CompileStmtProofs CompileCtlProofs CompileLocProofs.
 Require Import EvyV.Gen.Opcodes.
 Import ListNotations.
 
@@ -23,6 +23,18 @@ Proof.
            end;
     split_goal; auto; try discriminate.
 Qed.
+
+Ltac derive2 SE SO BLOCK COND FOR :=
+    repeat match goal with
+    | H : compile_expr true _ _ = COk _ |- _ => let X := fresh "X" in pose proof (SE _ _ _ H) as X; clear H
+    | H : compile_oexpr true _ _ = COk _ |- _ => let X := fresh "X" in pose proof (SO _ _ _ H) as X; clear H
+    | IH : (forall st st', body_of true ?b st = COk st' -> _), H : compile_block true ?b _ = COk _ |- _ =>
+        let X := fresh "X" in pose proof (BLOCK _ IH _ _ H) as X; clear H
+    | IH : (forall st st', body_of true ?b st = COk st' -> _), H : compile_cond true _ ?b _ = COk _ |- _ =>
+        let X := fresh "X" in pose proof (COND _ _ IH _ _ H) as X; clear H; destruct X
+    | IH : (forall st st', body_of true ?b st = COk st' -> _), H : for_loop true _ _ _ ?b _ = COk _ |- _ =>
+        let X := fresh "X" in pose proof (FOR _ _ _ _ IH _ _ H) as X; clear H
+    end.
 
 Opaque emit emit_const.
 Lemma cover_stmt :
@@ -50,17 +62,6 @@ Proof.
                                    forall st st', for_loop true lv rop n b st = COk st' -> plain_slist b = true -> lfrag_slist b = true).
   { intros lv rop n b Hb st st' H HP. destruct b as [|s t]; [reflexivity|]. simpl in H.
     bind_inv H; bind_inv H; bind_inv H; bind_inv H. eapply Hb; [simpl; eassumption|exact HP]. }
-  Ltac derive2 SE SO BLOCK COND FOR :=
-    repeat match goal with
-    | H : compile_expr true _ _ = COk _ |- _ => let X := fresh "X" in pose proof (SE _ _ _ H) as X; clear H
-    | H : compile_oexpr true _ _ = COk _ |- _ => let X := fresh "X" in pose proof (SO _ _ _ H) as X; clear H
-    | IH : (forall st st', body_of true ?b st = COk st' -> _), H : compile_block true ?b _ = COk _ |- _ =>
-        let X := fresh "X" in pose proof (BLOCK _ IH _ _ H) as X; clear H
-    | IH : (forall st st', body_of true ?b st = COk st' -> _), H : compile_cond true _ ?b _ = COk _ |- _ =>
-        let X := fresh "X" in pose proof (COND _ _ IH _ _ H) as X; clear H; destruct X
-    | IH : (forall st st', body_of true ?b st = COk st' -> _), H : for_loop true _ _ _ ?b _ = COk _ |- _ =>
-        let X := fresh "X" in pose proof (FOR _ _ _ _ IH _ _ H) as X; clear H
-    end.
   apply stmt_mutind; intros; simpl in *; auto.
   - (* SDecl *) binds. derive2 SE SO BLOCK COND FOR. auto.
   - (* SAssign *)
@@ -115,3 +116,79 @@ Proof.
   intros p st fuel env' HC HP HNB HX HD. apply (compile_correct_locals p st fuel env'); auto.
   unfold lpfrag. rewrite (compile_covered p st HC HP), HNB. reflexivity.
 Qed.
+
+(* ====================================================================== *)
+(* the same for compile_wf: element stores included                        *)
+(* ====================================================================== *)
+Opaque emit emit_const.
+Lemma cover_stmt_wf :
+  (forall s st st', compile_stmt true s st = COk st' -> wplain_stmt s = true -> cfrag_stmt s = true) /\
+  (forall l st st', body_of true l st = COk st' -> wplain_slist l = true -> cfrag_slist l = true) /\
+  (forall l jumps st st', fst (compile_elifs true l jumps st) = COk st' -> wplain_clist l = true -> cfrag_clist l = true) /\
+  (forall o, match o with
+             | NoElse => True
+             | Else b => forall st st', body_of true b st = COk st' -> wplain_slist b = true -> cfrag_slist b = true
+             end).
+Proof.
+  destruct cover_expr as (SE & SL & SP & SO).
+  assert (BLOCK : forall b, (forall st st', body_of true b st = COk st' -> wplain_slist b = true -> cfrag_slist b = true) ->
+                            forall st st', compile_block true b st = COk st' -> wplain_slist b = true -> cfrag_slist b = true).
+  { intros b Hb st st' H HP. destruct b as [|s t]; [reflexivity|]. simpl in H. bind_inv H.
+    eapply Hb; [simpl; eassumption|exact HP]. }
+  assert (COND : forall c b, (forall st st', body_of true b st = COk st' -> wplain_slist b = true -> cfrag_slist b = true) ->
+                             forall st st', compile_cond true c b st = COk st' ->
+                                            (mapok c = true -> efrag c = true) /\ (wplain_slist b = true -> cfrag_slist b = true)).
+  { intros c b Hb st st' H. destruct b as [|s t].
+    - simpl in H. bind_inv H. split; [eapply SE; eassumption|reflexivity].
+    - simpl in H. bind_inv H; bind_inv H; bind_inv H.
+      split; [eapply SE; eassumption|]. intro HP. eapply Hb; [simpl; eassumption|exact HP]. }
+  assert (FOR : forall lv rop n b, (forall st st', body_of true b st = COk st' -> wplain_slist b = true -> cfrag_slist b = true) ->
+                                   forall st st', for_loop true lv rop n b st = COk st' -> wplain_slist b = true -> cfrag_slist b = true).
+  { intros lv rop n b Hb st st' H HP. destruct b as [|s t]; [reflexivity|]. simpl in H.
+    bind_inv H; bind_inv H; bind_inv H; bind_inv H. eapply Hb; [simpl; eassumption|exact HP]. }
+  apply stmt_mutind; intros; simpl in *; auto.
+  - (* SDecl *) binds. derive2 SE SO BLOCK COND FOR. auto.
+  - (* SAssign *)
+    match goal with H : _ = COk _ |- _ => bind_inv H; rename H into HT end.
+    destruct target; simpl in *; try discriminate; binds; split_hyps; try discriminate;
+      derive2 SE SO BLOCK COND FOR; split_goal; auto.
+  - (* SIf *)
+    match goal with H : _ = COk _ |- _ => bind_inv H; rename H into HT end.
+    match type of HT with context [compile_elifs true ?l ?j ?x] =>
+      destruct (compile_elifs true l j x) as [r jumps] eqn:EE end.
+    binds. split_hyps.
+    match goal with IH : forall jumps st st', fst (compile_elifs true elifs jumps st) = COk st' -> _ |- _ =>
+      assert (XE : cfrag_clist elifs = true) by (eapply IH; [rewrite EE; simpl; eassumption|assumption]) end.
+    destruct els; simpl in *; derive2 SE SO BLOCK COND FOR; split_goal; auto.
+  - (* SWhile *) binds. split_hyps. derive2 SE SO BLOCK COND FOR. split_goal; auto.
+  - (* SForStep *) binds. split_hyps. derive2 SE SO BLOCK COND FOR. destruct start, step; simpl in *; split_goal; auto.
+  - (* SForIter *) destruct t; try discriminate; binds; split_hyps; derive2 SE SO BLOCK COND FOR; split_goal; auto.
+  - (* SUnsupported *) discriminate.
+  - (* SCons *) binds. split_hyps.
+    match goal with H : compile_slist true _ _ = COk _ |- _ => rewrite compile_slist_body in H end.
+    split_goal; eauto.
+  - (* CCons *)
+    match goal with H : fst (match ?x with _ => _ end) = COk _ |- _ => destruct x eqn:EC; [|simpl in H; discriminate] end.
+    split_hyps. derive2 SE SO BLOCK COND FOR. split_goal; eauto.
+  - (* Else *) eauto.
+Qed.
+Transparent emit emit_const.
+
+Lemma pfrag2_cfrag p : pfrag2 p = cfrag_slist p.
+Proof. induction p as [|s t IH]; [reflexivity|]. cbn [pfrag2 cfrag_slist]. unfold pfrag_stmt2. rewrite IH. reflexivity. Qed.
+
+Theorem compile_covered_wf : forall (p : slist) (st : cstate),
+  compile p = COk st -> wplain_slist p = true -> pfrag2 p = true.
+Proof.
+  intros p st H HP. rewrite pfrag2_cfrag. unfold compile, compile_program in H. rewrite compile_slist_body in H.
+  destruct cover_stmt_wf as (_ & SL & _). eapply SL; eauto.
+Qed.
+
+(* compile_wf for EVERY program the compiler accepts: wplain only excludes
+   two shapes the parser never produces, and a pending break at the end is a
+   break outside a loop (a parse error) *)
+Theorem compile_wf_all : forall (p : slist) (st : cstate),
+  compile p = COk st -> wplain_slist p = true -> cbreaks st = [] ->
+  WF {| bcode := out_code (bytecode_of st); nconsts := N.of_nat (List.length (out_consts (bytecode_of st)));
+        gcount := out_gcount (bytecode_of st); lcount := out_lcount (bytecode_of st) |}.
+Proof. intros p st HC HP HB. apply (compile_wf_ctl2 p st (compile_covered_wf p st HC HP) HC HB). Qed.
